@@ -31,6 +31,8 @@ DEC = [
 ]
 QUICK_ENC = {'application', 'bitrate', 'force_channels', 'bandwidth', 'complexity', 'lsb_depth', 'expert_frame_duration', 'phase_inversion_disabled', 'force_mode'}
 
+import os, importlib.util
+_s = importlib.util.spec_from_file_location('vt_glue', os.path.join(VERIF, 'props', '_glue.py')); _g = importlib.util.module_from_spec(_s); _s.loader.exec_module(_g)
 def obligations():
     L = []
     for name, rs, rg, legal, field, expect in ENC:
@@ -53,4 +55,8 @@ def obligations():
                     stubs=['celt_decoder_ctl: recording stub']))
     L.append(Ob('H1.dec_ctl.unknown_request', 'C11_dec_ctl.c', [], ['-DUNKNOWN_REQUEST'], unwind=1, functions=['opus_decoder_ctl'], budget=600, replay=False,
                 bounds='any request number below 4000 or above 11050, any state'))
+    for fsi, dur in [(3, 3), (1, 1), (4, 4), (0, 2), (2, 6)]:
+        L.append(_g.glue_ob(Ob, 'H3.honoured_in_glue', fsi, dur, 'quick'))
+    for fsi, dur in [(f, d) for f in range(5) for d in range(9) if (f, d) not in [(3, 3), (1, 1), (4, 4), (0, 2), (2, 6)]][::4]:
+        L.append(_g.glue_ob(Ob, 'H3.honoured_in_glue', fsi, dur, 'thorough'))
     return L
